@@ -25,6 +25,13 @@ Terms name the parts of a request by ROLE, never by identifier: `start` / `stop`
 
 Evaluation is against an abstract request `GReq`; the first guard that fires decides the outcome, otherwise the chain
 ends in `ok` (the real work starts). A term containing `.opaque` has no value (`none`).
+
+The same language covers the remaining public operations of qframe.go and grouper.go (`QF.Gen.guardAst2`, proved in
+QF/Props/C10Guards.lean): `Sort`, `Distinct`, `GroupBy`, `Grouper.Aggregate`, `Grouper.QFrames`, the three helpers `Apply`
+dispatches to, `FilteredApply`, `Eval`, `Filter` / `filter`, `Equals`, `ToCSV`, `ToJSON`, `ToSQL`, `ReadCSV`, `ReadJSON`,
+`ReadSQLWithArgs`. There the prefix may step over WORK — statements without a `return` that do not assign to the
+receiver — and a loop may contain work and further error returns (`forEachWork`). `Apply` itself is a loop without guards:
+`ApplyAst` / `IDisp` hold its per-instruction dispatch.
 -/
 namespace QF
 
@@ -114,8 +121,10 @@ inductive GRole where
   | dst
   /-- the second name parameter (`Copy(_, srcCol)`) -/
   | src
-  /-- the variable of the enclosing loop -/
+  /-- the variable of the enclosing loop (for a loop over structs — `Order`, `Aggregation`, `filter.Filter` — its `Column` field) -/
   | each
+  /-- the third name parameter (`apply2(_, _, _, srcCol2)`) -/
+  | src2
   deriving DecidableEq, Repr, Inhabited
 
 /-- The collections of names a loop can range over. -/
@@ -126,6 +135,16 @@ inductive GColl where
   | dataKeys
   /-- `config.ColumnOrder` of `New` -/
   | order
+  /-- the `Column` fields of the variadic `Order` parameter of `Sort` -/
+  | orderCols
+  /-- `config.Columns` of a `groupby.Config` (`Distinct`, `GroupBy`) -/
+  | groupCols
+  /-- the `Column` fields of the variadic `Aggregation` parameter of `Grouper.Aggregate` -/
+  | aggCols
+  /-- the `Column` fields of the variadic `filter.Filter` parameter of `QFrame.filter` -/
+  | filterCols
+  /-- `conf.Columns` of a `csv.ToConfig` (`ToCSV`); may be nil (`GCond.given`) -/
+  | csvCols
   deriving DecidableEq, Repr, Inhabited
 
 inductive GInt where
@@ -140,6 +159,12 @@ inductive GInt where
   | indexLen
   /-- `len(columns)`, `len(data)`, `len(config.ColumnOrder)` -/
   | count (c : GColl)
+  /-- `len(qf.columns)` — the slice field of `type QFrame struct` -/
+  | colCount
+  /-- `len(other.index)` (`Equals(other QFrame)`) -/
+  | otherIndexLen
+  /-- `len(other.columns)` -/
+  | otherColCount
   deriving DecidableEq, Repr, Inhabited
 
 /-- Guard conditions, by role. -/
@@ -160,6 +185,16 @@ inductive GCond where
   | sameName
   /-- `err := CheckName(r); err != nil` — `CheckName` is whatever function of internal/strings is called -/
   | nameCheckFails (r : GRole)
+  /-- `g.Err != nil` for a `Grouper` receiver -/
+  | grouperHasErr
+  /-- `conf.Columns != nil` -/
+  | given (c : GColl)
+  /-- `…, err := <k-th call outside the package that yields an error>; err != nil` (`ReadCSV`, `ReadJSON`, `ReadSQLWithArgs`) -/
+  | extFails (k : Nat)
+  /-- inside `for i, s := range qf.columns { o := other.columns[i]; … }`: `s.name != o.name` -/
+  | pairNameDiffers
+  /-- … : `!s.Equals(qf.index, o.Column, other.index)` — decided by the per-type column code -/
+  | pairContentDiffers
   | not (c : GCond)
   | and (c d : GCond)
   | or (c d : GCond)
@@ -183,6 +218,12 @@ inductive GOut where
   | returnSelf
   /-- `return QFrame{…}` without an error; also the end of the chain: the real work starts -/
   | ok
+  /-- `return T{Err: recv.Err}` / `return nil, g.Err` inside `if recv.Err != nil`: a fresh result that carries the receiver's error -/
+  | carryErr
+  /-- `return false, …` (`Equals`) -/
+  | retFalse
+  /-- `return true, …` -/
+  | retTrue
   deriving DecidableEq, Repr, Inhabited
 
 inductive GStep where
@@ -192,6 +233,20 @@ inductive GStep where
   | forEach (coll : GColl) (c : GCond) (o : GOut)
   /-- `if len(order) == 0 { order = the keys of data, in some order }` (`New`) -/
   | defaultOrder
+  /-- `for _, x := range coll { …; if c { return o }; … }` where `o` is an error, the other statements of the body do
+  not assign to the receiver, and EVERY other `return` in the body returns an error as well (they are counted in
+  `lateErrors2`): if `c` holds for some element the operation ends in an error -/
+  | forEachWork (coll : GColl) (c : GCond) (o : GOut)
+  /-- `if pre { if c { return o } … }` -/
+  | guardIf (pre c : GCond) (o : GOut)
+  /-- `if pre { for … range coll { if c { return o } } … }` -/
+  | forEachIf (pre : GCond) (coll : GColl) (c : GCond) (o : GOut)
+  /-- `r := qf.op(<the request's parameters>); if r.Err != nil { return r }` (`FilteredApply`: `op` = Filter) -/
+  | subFails (op : String)
+  /-- `for i, s := range qf.columns { o := other.columns[i]; if c { return out } }` (`Equals`) -/
+  | forEachPair (c : GCond) (o : GOut)
+  /-- `return …` unconditionally: the whole function was translated -/
+  | done (o : GOut)
   | opaque (txt : String)
   deriving DecidableEq, Repr, Inhabited
 
@@ -221,16 +276,52 @@ structure GReq where
   dataNames : List Bytes := []
   /-- `New`: `config.ColumnOrder` -/
   order : List Bytes := []
+  src2 : Bytes := []
+  /-- `Sort`: the `Column` of each order -/
+  orderCols : List Bytes := []
+  /-- `Distinct` / `GroupBy`: `config.Columns` -/
+  groupCols : List Bytes := []
+  /-- `Aggregate`: the `Column` of each aggregation -/
+  aggCols : List Bytes := []
+  /-- `filter`: the `Column` of each filter -/
+  filterCols : List Bytes := []
+  /-- `ToCSV`: `conf.Columns` and whether it is not nil -/
+  csvCols : List Bytes := []
+  csvGiven : Bool := false
+  /-- `g.Err != nil` (a `Grouper` receiver; its name map is `known`) -/
+  grouperErr : Bool := false
+  /-- the names of `qf.columns`, in order -/
+  colNames : List Bytes := []
+  /-- `Equals`: `len(other.index)`, the names of `other.columns`, and what the column code says about the columns at position `i` -/
+  otherRows : Nat := 0
+  otherNames : List Bytes := []
+  contentDiffers : Nat → Bool := fun _ => false
+  /-- did the `k`-th call outside the package return an error? -/
+  extFails : Nat → Bool := fun _ => false
+  /-- `subFails op`: what `qf.op(…)` does on this request — `returnSelf`, `err`, or `ok` (a frame without error) -/
+  subOut : Option GOut := none
+  /-- … when its guard prefix lets the request through: does its real work end in an error? -/
+  subWorkFails : Bool := false
 
 def GReq.coll (q : GReq) : GColl → List Bytes
   | .columns => q.columns
   | .dataKeys => q.dataNames
   | .order => q.order
+  | .orderCols => q.orderCols
+  | .groupCols => q.groupCols
+  | .aggCols => q.aggCols
+  | .filterCols => q.filterCols
+  | .csvCols => q.csvCols
+
+def GReq.isGiven (q : GReq) : GColl → Bool
+  | .csvCols => q.csvGiven
+  | _ => true
 
 def GReq.name (q : GReq) (each : Option Bytes) : GRole → Option Bytes
   | .dst => some q.dst
   | .src => some q.src
   | .each => each
+  | .src2 => some q.src2
 
 /-- The meaning of the two functions a guard may call. -/
 structure GEnv where
@@ -246,6 +337,9 @@ def GInt.eval (E : GEnv) (q : GReq) : GInt → Option Int
   | .len => E.lenOf q
   | .indexLen => some (q.rows : Int)
   | .count c => some ((q.coll c).length : Int)
+  | .colCount => some (q.colNames.length : Int)
+  | .otherIndexLen => some (q.otherRows : Int)
+  | .otherColCount => some (q.otherNames.length : Int)
 
 def GCond.eval (E : GEnv) (q : GReq) (each : Option Bytes) : GCond → Option Bool
   | .lt a b =>
@@ -265,6 +359,11 @@ def GCond.eval (E : GEnv) (q : GReq) (each : Option Bytes) : GCond → Option Bo
   | .notInData r => (q.name each r).map (fun n => !q.dataNames.contains n)
   | .sameName => some (q.dst == q.src)
   | .nameCheckFails r => (q.name each r).bind E.nameFails
+  | .grouperHasErr => some q.grouperErr
+  | .given c => some (q.isGiven c)
+  | .extFails k => some (q.extFails k)
+  | .pairNameDiffers => none
+  | .pairContentDiffers => none
   | .not c => (c.eval E q each).map (!·)
   | .and c d =>
     match c.eval E q each, d.eval E q each with
@@ -285,6 +384,23 @@ def anyFires (c : Bytes → Option Bool) : List Bytes → Option Bool
     | some false => anyFires c xs
     | none => none
 
+/-- A condition inside `for i, s := range qf.columns { o := other.columns[i]; … }` at position `i`: `a` is the name of
+`s`, `b` that of `o` — `none` beyond the end of `other.columns`, where Go panics. -/
+def GCond.evalPair (E : GEnv) (q : GReq) (i : Nat) (a : Bytes) (b : Option Bytes) : GCond → Option Bool
+  | .pairNameDiffers => b.map (fun n => a != n)
+  | .pairContentDiffers => b.map (fun _ => q.contentDiffers i)
+  | .not c => (c.evalPair E q i a b).map (!·)
+  | c => c.eval E q none
+
+/-- Does the body of the loop over the positions fire (in order, from position `i` on)? -/
+def anyFiresPair (c : Nat → Bytes → Option Bytes → Option Bool) : Nat → List Bytes → List Bytes → Option Bool
+  | _, [], _ => some false
+  | i, a :: as, bs =>
+    match c i a bs.head? with
+    | some true => some true
+    | some false => anyFiresPair c (i + 1) as bs.tail
+    | none => none
+
 /-- The outcome of a guard chain on a request. -/
 def runGuards (E : GEnv) : List GStep → GReq → Option GOut
   | [], _ => some .ok
@@ -299,6 +415,42 @@ def runGuards (E : GEnv) : List GStep → GReq → Option GOut
     | some false => runGuards E ss q
     | none => none
   | .defaultOrder :: ss, q => runGuards E ss { q with order := if q.order.isEmpty then q.dataNames else q.order }
+  | .forEachWork coll c o :: ss, q =>
+    match anyFires (fun x => c.eval E q (some x)) (q.coll coll) with
+    | some true => some o
+    | some false => runGuards E ss q
+    | none => none
+  | .guardIf pre c o :: ss, q =>
+    match pre.eval E q none with
+    | some true =>
+      match c.eval E q none with
+      | some true => some o
+      | some false => runGuards E ss q
+      | none => none
+    | some false => runGuards E ss q
+    | none => none
+  | .forEachIf pre coll c o :: ss, q =>
+    match pre.eval E q none with
+    | some true =>
+      match anyFires (fun x => c.eval E q (some x)) (q.coll coll) with
+      | some true => some o
+      | some false => runGuards E ss q
+      | none => none
+    | some false => runGuards E ss q
+    | none => none
+  | .subFails _ :: ss, q =>
+    match q.subOut with
+    | some .returnSelf => if q.hasErr then some .returnSelf else runGuards E ss q
+    | some .err => some .err
+    | some .carryErr => some .err
+    | some _ => runGuards E ss q
+    | none => none
+  | .forEachPair c o :: ss, q =>
+    match anyFiresPair (fun i a b => c.evalPair E q i a b) 0 q.colNames q.otherNames with
+    | some true => some o
+    | some false => runGuards E ss q
+    | none => none
+  | .done o :: _, _ => some o
   | .opaque _ :: _, _ => none
 
 /-- The value of an int-valued chain; `none` for a path without `return`. -/
@@ -320,12 +472,86 @@ def GCond.hasOpaque : GCond → Bool
 
 def GStep.hasOpaque : GStep → Bool
   | .opaque _ => true
-  | .guard c _ | .forEach _ c _ => c.hasOpaque
-  | .defaultOrder => false
+  | .guard c _ | .forEach _ c _ | .forEachWork _ c _ | .forEachPair c _ => c.hasOpaque
+  | .guardIf p c _ | .forEachIf p _ c _ => p.hasOpaque || c.hasOpaque
+  | .defaultOrder | .subFails _ | .done _ => false
 
 def IStep.hasOpaque : IStep → Bool
   | .opaque _ => true
   | .guard c _ => c.hasOpaque
   | .ret _ => false
+
+/-! ## `Apply`: a loop without guards -/
+
+/-- The fields of an `Instruction`. -/
+inductive IField where
+  | fn | dst | src1 | src2
+  deriving DecidableEq, Repr, Inhabited
+
+/-- The body of `for _, a := range instructions { … }`. -/
+inductive IDisp where
+  /-- `if a.f == "" { t } else { e }` -/
+  | ifEmpty (f : IField) (t e : IDisp)
+  /-- `acc = acc.h(a.args…)` where `h` is the frame method with the signature `(fn, dstCol, srcCol × srcs) QFrame` -/
+  | call (srcs : Nat) (args : List IField)
+  | opaque (txt : String)
+  deriving DecidableEq, Repr, Inhabited
+
+/-- `func (qf QFrame) Apply(instructions ...Instruction) QFrame`. -/
+structure ApplyAst where
+  /-- `acc := qf` before the loop -/
+  accFromRecv : Bool
+  disp : IDisp
+  /-- `return acc` after it, and nothing else -/
+  returnsAcc : Bool
+  deriving DecidableEq, Repr, Inhabited
+
+/-- An `Instruction{…}` literal: which fields are set (`WithRowNums`). -/
+structure InstrLit where
+  /-- `DstCol: <name parameter>` -/
+  dst : Option GRole
+  src1Set : Bool
+  src2Set : Bool
+  /-- `Fn: func() … { … }` -/
+  fnIsFuncLit : Bool
+  deriving DecidableEq, Repr, Inhabited
+
+/-- The name fields of an instruction as Go sees them (`""` = not set). -/
+structure GoInstr where
+  dst : Bytes
+  src1 : Bytes := []
+  src2 : Bytes := []
+  fn : Fn
+  deriving Inhabited
+
+def GoInstr.nameOf (g : GoInstr) : IField → Option Bytes
+  | .fn => none
+  | .dst => some g.dst
+  | .src1 => some g.src1
+  | .src2 => some g.src2
+
+/-- Which helper an instruction goes to, and with which fields. -/
+def IDisp.eval (g : GoInstr) : IDisp → Option (Nat × List IField)
+  | .ifEmpty f t e =>
+    match g.nameOf f with
+    | some n => if n.isEmpty then t.eval g else e.eval g
+    | none => none
+  | .call k args => some (k, args)
+  | .opaque _ => none
+
+def IDisp.hasOpaque : IDisp → Bool
+  | .opaque _ => true
+  | .ifEmpty _ t e => t.hasOpaque || e.hasOpaque
+  | .call _ _ => false
+
+/-- The loop of `Apply` over any kind of accumulator: it starts as the receiver, each instruction replaces it by what the
+helper chosen by the dispatch returns, the last one is the result. -/
+def runApplyLoop {σ : Type} (a : ApplyAst) (helper : Nat → List IField → GoInstr → σ → σ) (recv : σ) :
+    List GoInstr → Option σ
+  | [] => if a.accFromRecv && a.returnsAcc then some recv else none
+  | i :: is =>
+    match a.disp.eval i with
+    | some (k, args) => runApplyLoop a helper (helper k args i recv) is
+    | none => none
 
 end QF
